@@ -17,7 +17,7 @@ invariant `WF t`, any value list.  `WF t` (names of the positional attributes di
 count on optional, no given_or_derived attribute with a declared value) is what `InitFromHash` establishes:
 `C17_wf_define` proves it for EVERY definition accepted by `define` over an environment of accepted definitions,
 `C17_wf_env` for every type of every accepted list of definitions (any inheritance depth), given only the shape the
-driver's universe guarantees (`DefShape`: own attribute names distinct, no repeated name in `serialization`).
+driver's universe guarantees (`DefShape`: own attribute names distinct — a hash literal).
 
 Full statement / proved / missing
 * `C17_get`            — proved: `get (newPos t vs) a = vs[pos a]` or, beyond the given values, the default
@@ -40,7 +40,7 @@ Full statement / proved / missing
                          `C17_subtype_strict`: a type never accepts an instance of a proper ancestor.
 * `C17_schema`         — proved: every `WellFormedDef` (attributes well-formed on their own, each a fresh name or a proper
                          override; equality names non-constant attributes not already in an inherited equality;
-                         serialization names positional attributes with required never after optional) whose names match
+                         serialization names positional attributes, each once, with required never after optional) whose names match
                          MemberNamePattern passes the schema assertion AND the definition proper (`defineChecked`), for ANY
                          member table satisfying the decidable side condition `schemaOKb` (no member listed twice, all
                          optional, the six members of the universe with the value types `sinst` implements, every key
@@ -54,22 +54,19 @@ Full statement / proved / missing
                          instance relation of Pattern/Variant/Hash types (C02) — `sinst` implements them on the value shapes
                          an object definition holds only.
 * missing altogether: `override => true`, functions, type parameters, annotations, Go-reflected objects
-  (`reflectedObject`), a `serialization` list with a repeated name (accepted by the code, the named constructor then indexes
-  out of range — outside the universe).
+  (`reflectedObject`).
 -/
 namespace Pcore.Object
 
 /-! ### what `InitFromHash` establishes: every accepted definition satisfies the layout invariant -/
 
-/-- the part of a definition's shape the universe of the driver guarantees: own attribute names distinct (a hash literal),
-    no repeated name in `serialization` -/
+/-- the part of a definition's shape the universe of the driver guarantees: own attribute names distinct (a hash literal) -/
 structure DefShape (d : Def) : Prop where
   names : (d.attrs.map (·.name)).Nodup
-  ser : ∀ ser, d.serialization = some ser → ser.Nodup
 
 theorem C17_wf_define {env : List OType} {d : Def} {t : OType} (henv : ∀ t' ∈ env, TypeOK t') (hd : DefShape d)
     (h : define env d = .ok t) : TypeOK t ∧ WF t :=
-  define_wf henv hd.names hd.ser h
+  define_wf henv hd.names h
 
 /-- any number of definitions, any inheritance depth: every type of the resulting environment is well laid out -/
 theorem C17_wf_env {env0 env : List OType} {ds : List Def} (h0 : ∀ t ∈ env0, TypeOK t ∧ WF t)
@@ -105,7 +102,7 @@ structure WellFormedDef (env : List OType) (d : Def) : Prop where
     ∃ a, lookupMember as (parentOf env d) n = some a ∧ a.kind ≠ .constant ∧ n ∉ equalityAttributes (parentOf env d)
   serialization : ∀ as, defineAttrs (parentOf env d) d.attrs = .ok as → ∀ ser, d.serialization = some ser →
     (∀ n ∈ ser, ∃ a, lookupMember as (parentOf env d) n = some a ∧ a.settable = true) ∧
-      SerSorted as (parentOf env d) ser
+      SerSorted as (parentOf env d) ser ∧ ser.Nodup
 
 /-- model-level statement of "every definition the schema admits is accepted".  Missing (not modelled): that the parsed
     text / init-hash of such a definition is an instance of the Struct `TypeObjectInitHash` (checked by the
@@ -113,12 +110,12 @@ structure WellFormedDef (env : List OType) (d : Def) : Prop where
 theorem C17_schema_partial {env : List OType} {d : Def} (h : WellFormedDef env d) : ∃ t, define env d = .ok t := by
   obtain ⟨as, has⟩ := defineAttrs_succeeds h.attrs h.override
   have heq := checkEquality_succeeds (h.equality as has)
-  have hser : checkSerialization as (parentOf env d) false (d.serialization.getD []) = .ok () := by
+  have hser : checkSerialization as (parentOf env d) false [] (d.serialization.getD []) = .ok () := by
     rcases Option.eq_none_or_eq_some d.serialization with hs | ⟨ser, hs⟩
     · simp [hs, checkSerialization]
-    · obtain ⟨h1, h2⟩ := h.serialization as has ser hs
+    · obtain ⟨h1, h2, h3⟩ := h.serialization as has ser hs
       rw [hs]
-      exact checkSerialization_succeeds h1 (fun hb => by cases hb) h2
+      exact checkSerialization_succeeds h1 (fun hb => by cases hb) h2 h3 (by simp)
   unfold define
   simp only [has, heq, hser]
   exact ⟨_, rfl⟩
@@ -639,10 +636,10 @@ theorem sampleShape : ∀ d ∈ sampleDefs, DefShape d := by
   intro d hd
   simp only [sampleDefs, List.mem_cons, List.not_mem_nil, or_false] at hd
   rcases hd with rfl | rfl | rfl | rfl
-  · exact ⟨by decide, by intro ser h; cases h⟩
-  · exact ⟨by decide, by intro ser h; cases h⟩
-  · exact ⟨by decide, by intro ser h; cases h; decide⟩
-  · exact ⟨by decide, by intro ser h; cases h⟩
+  · exact ⟨by decide⟩
+  · exact ⟨by decide⟩
+  · exact ⟨by decide⟩
+  · exact ⟨by decide⟩
 
 theorem sampleWF : WF sampleT2 :=
   (C17_wf_env (env0 := []) (by simp) sampleShape (rfl : defineAll [] sampleDefs = .ok sampleEnv) sampleT2
